@@ -358,6 +358,10 @@ class SourceFile:
             if it.kind == "trait" and it.name == head and rest:
                 out += self._find(self.children(it), rest)
                 continue
+            if it.kind == "fn" and it.name == head and rest and it.body_open is not None:
+                # items declared inside a function body (`wrap_line::CurrLine::reset`)
+                out += self._find(self.children(it), rest)
+                continue
             if it.kind == "macro_call" and it.name == "lazy_static" and not rest:
                 # `lazy_static` names the (single) lazy_static! block of a file: region directives only
                 if head == "lazy_static" and it.body_open is not None:
